@@ -525,3 +525,39 @@ def main(argv):
         import traceback
         ctx.break_("harness", {"error": repr(e), "trace": traceback.format_exc()[-3000:]})
     return finish(ctx)
+
+
+# --------------------------------------------------------------------------
+# ordering on canonical observables, identical to Coq's sx_compare
+# --------------------------------------------------------------------------
+
+def _sx_atom_text(o):
+    if o is None:
+        return "None"
+    if o is True:
+        return "T"
+    if o is False:
+        return "F"
+    return sx_escape(o)
+
+
+def sx_cmp(a, b):
+    ka = 1 if (isinstance(a, int) and not isinstance(a, bool)) else 2 if isinstance(a, (list, tuple)) else 0
+    kb = 1 if (isinstance(b, int) and not isinstance(b, bool)) else 2 if isinstance(b, (list, tuple)) else 0
+    if ka != kb:
+        return -1 if ka < kb else 1
+    if ka == 0:
+        x, y = _sx_atom_text(a), _sx_atom_text(b)
+        return -1 if x < y else (1 if x > y else 0)
+    if ka == 1:
+        return -1 if a < b else (1 if a > b else 0)
+    for x, y in zip(a, b):
+        c = sx_cmp(x, y)
+        if c:
+            return c
+    return -1 if len(a) < len(b) else (1 if len(a) > len(b) else 0)
+
+
+def sx_sorted(items):
+    import functools
+    return sorted(items, key=functools.cmp_to_key(sx_cmp))
